@@ -312,15 +312,24 @@ func c13Trace(c *c13, g *Rng, idx int) {
 		if settled {
 			// after settlement: claims, vesting, and trades that must fail
 			switch {
-			case w < 30:
-				c.do(fmt.Sprintf("claim %d", a))
-			case w < 55:
+			case w < 22:
+				who := a
+				if g.Chance(75) { // prefer somebody who still holds IRO tokens
+					for i := 0; i < n; i++ {
+						if c.f.Bal(c.actors[(a+i)%n], c.iroDenom).IsPositive() {
+							who = (a + i) % n
+							break
+						}
+					}
+				}
+				c.do(fmt.Sprintf("claim %d", who))
+			case w < 45:
 				who := 0
 				if g.Chance(15) {
 					who = a
 				}
 				c.do(fmt.Sprintf("claimv %d", who))
-			case w < 75:
+			case w < 72:
 				v := p.VestingPlan
 				d := v.EndTime.Sub(v.StartTime).Nanoseconds()
 				dt := []int64{1, int64(time.Second), d / 3, d / 7, d / 2, d/3 + 1, int64(time.Hour), d}[g.Intn(8)]
@@ -328,7 +337,7 @@ func c13Trace(c *c13, g *Rng, idx int) {
 					dt = 1
 				}
 				c.do(fmt.Sprintf("time %d", dt))
-			case w < 82:
+			case w < 80:
 				c.do(fmt.Sprintf("buy %d %s %s", a, p10(18), c13Huge))
 			case w < 86:
 				c.do(fmt.Sprintf("sell %d %s 1", a, c13Max(iroBal, math.OneInt())))
